@@ -356,7 +356,14 @@ func findFunc(ld *Loader, pkgDir, name string) *ssa.Function {
 }
 
 func newMachine(ld *Loader, cfg *HarnessCfg, backend string, timeoutMs int) (*Machine, error) {
-	s, err := NewSolver(backend, timeoutMs)
+	incMs := timeoutMs
+	if os.Getenv("GOSYM_ONESHOT") != "0" {
+		incMs = 300
+		if v, ok := cfg.Params["incTimeoutMs"]; ok {
+			incMs = v
+		}
+	}
+	s, err := NewSolver(backend, incMs)
 	if err != nil {
 		return nil, err
 	}
@@ -370,6 +377,12 @@ func newMachine(ld *Loader, cfg *HarnessCfg, backend string, timeoutMs int) (*Ma
 		funcsEncoded: map[*ssa.Function]int64{}, maxSteps: 20000000, rtypes: map[string]*Obj{}}
 	if v, ok := c.Params["maxSteps"]; ok {
 		m.maxSteps = int64(v)
+	}
+	if os.Getenv("GOSYM_ONESHOT") != "0" {
+		m.oneshot, err = NewSolver(backend, timeoutMs)
+		if err != nil {
+			return nil, err
+		}
 	}
 	for target, hname := range cfg.Stubs {
 		f := findFunc(ld, cfg.Pkg, hname)
@@ -440,6 +453,9 @@ func runHarness(ld *Loader, cfg *HarnessCfg, nworkers int, mode string, trace bo
 			}
 			m.trace = trace
 			defer m.solver.Close()
+			if m.oneshot != nil {
+				defer m.oneshot.Close()
+			}
 			func() {
 				defer func() {
 					if r := recover(); r != nil {
@@ -459,6 +475,12 @@ func runHarness(ld *Loader, cfg *HarnessCfg, nworkers int, mode string, trace bo
 			ex.definite += m.solver.Definite
 			ex.unknowns += m.solver.Unknowns
 			ex.solveTime += m.solver.SolveTime
+			if m.oneshot != nil {
+				ex.queries += m.oneshot.Queries
+				ex.definite += m.oneshot.Definite
+				ex.unknowns += m.oneshot.Unknowns
+				ex.solveTime += m.oneshot.SolveTime
+			}
 			ex.cacheHits += m.cacheHits
 			for f, n := range m.funcsEncoded {
 				ex.funcs[f.String()] += n
